@@ -385,6 +385,10 @@ def _parse_routes(api: 'API', command: str, action: str = 'announce') -> list['R
         return []
 
 
+# what _parse_routes() knows how to turn into routes
+GROUPABLE = ('route', 'ipv4', 'ipv6', 'flow', 'vpls', 'attribute', 'attributes')
+
+
 def group_add_command(
     self: 'API', reactor: 'Reactor', service: str, peers: list[str], command: str, use_json: bool
 ) -> bool:
@@ -393,6 +397,18 @@ def group_add_command(
     This is used internally when a service is in grouping mode and sends
     announce/withdraw commands.
     """
+    words = command.split()
+    if len(words) >= 2 and words[0].lower() in ('announce', 'withdraw') and words[1].lower() not in GROUPABLE:
+        # only route definitions are processed at `group end`: `announce watchdog`, `announce eor`, `announce
+        # route-refresh`, `announce operational` ... were buffered, answered done, and then silently dropped
+        error_msg = f'{words[0]} {words[1]} can not be part of a group'
+        if use_json:
+            reactor.processes.write(service, json.dumps({'error': error_msg}))
+        else:
+            reactor.processes.write(service, f'error: {error_msg}')
+        reactor.processes.answer_error_sync(service)
+        return False
+
     if not _add_to_group(service, peers, command):
         error_msg = 'group buffer limit reached, group discarded'
         if use_json:
